@@ -12,8 +12,8 @@ Lemma parse_effs_enc es : forall rest,
   parse_effs (length es) (flat_map enc_eff es ++ rest) = Some (es, rest).
 Proof.
   induction es as [|e t IH]; intros rest; [reflexivity|].
-  destruct e as [k ok [a1 a2 a3 a4 a5 a6 a7 a8 a9 a10]].
-  cbn [length flat_map enc_eff enc_stamp ek eok est st_rex st_rphase st_rnode st_rsched st_rexpired
+  destruct e as [k ok [a1 a2 a3 a4 a5 a6 a7 a8 a9 a10] ph].
+  cbn [length flat_map enc_eff enc_stamp ek eok est eph st_rex st_rphase st_rnode st_rsched st_rexpired
        st_rbound st_needp st_pdone st_puid st_pnode app parse_effs].
   cbn [length Nat.ltb Nat.leb firstn skipn].
   rewrite IH. unfold parse_eff, at_. cbn [nth].
@@ -27,24 +27,24 @@ Proof.
 Qed.
 
 Lemma parse_ores_enc r : parse_ores (enc_ores r) = r.
-Proof. destruct r as [[l o]|]; cbn; [|reflexivity]. unfold parse_ores, at_. cbn. rewrite zb_bz. reflexivity. Qed.
+Proof. destruct r as [[[l o] n]|]; cbn; [|reflexivity]. unfold parse_ores, at_. cbn. rewrite !zb_bz. reflexivity. Qed.
 
-Lemma split17 (a b rest : list Z) : length a = 14%nat -> length b = 3%nat ->
-  Nat.ltb (length (a ++ b ++ rest)) 17 = false
+Lemma split17 (a b rest : list Z) : length a = 14%nat -> length b = 4%nat ->
+  Nat.ltb (length (a ++ b ++ rest)) 18 = false
   /\ firstn 14 (a ++ b ++ rest) = a
-  /\ skipn 14 (firstn 17 (a ++ b ++ rest)) = b
-  /\ skipn 17 (a ++ b ++ rest) = rest.
+  /\ skipn 14 (firstn 18 (a ++ b ++ rest)) = b
+  /\ skipn 18 (a ++ b ++ rest) = rest.
 Proof.
   intros La Lb.
   do 15 (destruct a as [|? a]; try discriminate La).
-  do 4 (destruct b as [|? b]; try discriminate Lb).
+  do 5 (destruct b as [|? b]; try discriminate Lb).
   cbn. repeat split; reflexivity.
 Qed.
 
 Lemma enc_job_length j : length (enc_job j) = 14%nat.
 Proof. reflexivity. Qed.
-Lemma enc_ores_length r : length (enc_ores r) = 3%nat.
-Proof. destruct r as [[? ?]|]; reflexivity. Qed.
+Lemma enc_ores_length r : length (enc_ores r) = 4%nat.
+Proof. destruct r as [[[? ?] ?]|]; reflexivity. Qed.
 
 Lemma parse_obs_enc j0 obs :
   (forall o, In o obs -> consts (o_job o) = consts j0) ->
